@@ -24,6 +24,7 @@ SITES = [
     ("list_field", "query S7 {{ users {D} {{ id friends {{ id }} }} }}", "S7Users", ["MixB"], B),
     # the same mixin on two classes of ONE operation (sibling fields; a field and a field nested below it)
     ("same_mixin_on_siblings", "query S8 {{ user {D} {{ id }} me {D} {{ name }} }}", ("S8User", "S8Me"), ["MixA"], A),
+    ("mixin_after_other_directive", "query S10 {{ user @include(if: true) {D} {{ id }} }}", "S10User", ["MixA"], A),
     ("same_mixin_nested", "query S9 {{ user {D} {{ id bestFriend {D} {{ name }} }} }}", ("S9User", "S9UserBestFriend"), ["MixB"], B),
 ]
 EXTRA = "query S5 { user { ...UG } }"
@@ -109,11 +110,11 @@ def parts_source() -> str:
             for c in (False, True):
                 if os.environ.get("VERIF_C08_THOROUGH", "0") == "1":
                     out.append(f"def check_mixin_p{i}(b3: bool, b4: bool, b5: bool, b6: bool, b7: bool, b8: bool, reverse: bool) -> bool:\n    \"\"\"\n    post: _\n    \"\"\"\n"
-                               f"    return _check([{a}, {b}, {c}, b3, b4, b5, b6, b7, b8], reverse, b3 != b5)\n")
+                               f"    return _check([{a}, {b}, {c}, b3, b4, b5, b6, b7, b8, b4 != b6], reverse, b3 != b5)\n")
                 else:
                     # quick tier: the two same-mixin sites are tied to earlier bits (every on/off combination of the two still occurs)
                     out.append(f"def check_mixin_p{i}(b3: bool, b4: bool, b5: bool, b6: bool, reverse: bool) -> bool:\n    \"\"\"\n    post: _\n    \"\"\"\n"
-                               f"    return _check([{a}, {b}, {c}, b3, b4, b5, b6, b4, b6], reverse, b3 != b5)\n")
+                               f"    return _check([{a}, {b}, {c}, b3, b4, b5, b6, b5, b4, b6], reverse, b3 != b5)\n")
                 i += 1
     return "\n".join(out)
 
